@@ -41,7 +41,7 @@ META = {
     'technique': 'Lean 4 proof (induction over the period list, append lemma, series frame) + differential correspondence check',
 }
 
-SPAN_KINDS = ['range', 'range0', 'mixed', 'strs', 'np_int', 'np_str', 'pd_index', 'period_A', 'period_Q', 'datetime']
+SPAN_KINDS = ['range', 'range0', 'mixed', 'strs', 'np_dup', 'np_int', 'np_str', 'pd_index', 'period_A', 'period_Q', 'datetime']
 
 
 def make_span(kind, n):
@@ -55,6 +55,11 @@ def make_span(kind, n):
     if kind == 'strs':
         labs = [f'p{i}' for i in range(n)]
         return list(labs), labs, 'zz'
+    if kind == 'np_dup':      # NumPy span with one repeated label: that label does not resolve to a single position
+        labs = [2000 + i for i in range(n)]
+        if n >= 4:
+            labs[2] = labs[1]
+        return np.array(labs), labs, 1990
     if kind == 'np_int':
         labs = list(range(2000, 2000 + n))
         return np.array(labs), labs, 1990
@@ -111,6 +116,8 @@ def gen_case(rng):
     n = rng.choice([0, 1, 2, 3, 4, 5, 4, 5])
     nE = 2
     lags, leads = rng.choice([0, 0, 1, 2]), rng.choice([0, 0, 1])
+    if kind == 'np_dup':      # keep the defaults (span[lags], span[-1-leads]) away from the repeated label
+        n, lags, leads = max(n, 4), 0, 0
     seqs, fault_at = period_outcomes(rng, n, lags, leads)
     vals = [[float(i + 1 + 10 * p) for p in range(n)] for i in range(nE)]
     script = [sc.make_script(seqs.get(p, []), [vals[i][p] for i in range(nE)], nE) for p in range(n)]
@@ -153,7 +160,7 @@ def oracle(case, kind, span, labels, start, end, rep, impl_tag, impl_m, impl_ret
 
     def pos(label):
         # independent of fsic: position of a label in the span as listed
-        return labels.index(label) if label in labels else None
+        return labels.index(label) if labels.count(label) == 1 else None
     if o['min_iter'] > o['max_iter']:
         if impl_tag != 'err:ValueError' or not unchanged:
             rep.violate('solve-minmax-not-rejected', f'min_iter > max_iter: {impl_tag}, unchanged={unchanged}', info)
@@ -214,7 +221,7 @@ def oracle_solve_period(case, kind, span, labels, label, rep):
             ra = 'ret:' + ('T' if a.solve_period(label, **kw) else 'F')
         except Exception as ex:  # noqa: BLE001
             ra = sc.exc_name(ex)
-        if label in labels:
+        if labels.count(label) == 1:
             try:
                 rb = 'ret:' + ('T' if b.solve_t(labels.index(label), **kw) else 'F')
             except Exception as ex:  # noqa: BLE001
